@@ -365,7 +365,9 @@ func c09CredCheck(c *kit.Ctx, a *c09Anchors, m *storeModel) {
 			return true
 		}
 		hit := false
-		if id, _, ok := matchAtomR(e, static); ok && id == "em" {
+		// (the e-mail may be matched by the candidate query instead: the loop is
+		// then the one around the password comparison)
+		if _, _, ok := matchAtomR(e, static); ok {
 			hit = true
 		}
 		if call, isCall := e.(*ast.CallExpr); isCall {
@@ -381,8 +383,28 @@ func c09CredCheck(c *kit.Ctx, a *c09Anchors, m *storeModel) {
 		return true
 	})
 	oM := r5.Ob(f, nil, "match table", "a candidate is kept iff its e-mail equals the e-mail parameter ∧ its password equals the password parameter (4 valuations)")
+	// a credential may be compared by the query that selects the candidates
+	// instead (c09_sqlmatch.go): exact[id] is such a comparison with `=`
+	emailT, passT := dataConst(c, "PointTypeEmail"), dataConst(c, "PointTypePass")
+	uses := c09CredSQLUses(m, f)
+	exact := map[string]*c09CredUse{}
+	var noFeed []string
+	if cr.loop1 != nil {
+		for i := range uses {
+			u := &uses[i]
+			id := map[string]string{emailT: "em", passT: "pw"}[u.ptype]
+			if u.kind != "eq" || id == "" {
+				continue
+			}
+			if c09RowsFeed(f, u.site, cr.loop1) {
+				exact[id] = u
+			} else {
+				noFeed = append(noFeed, fmt.Sprintf("%s: cannot relate the rows of that statement to the candidates of the loop at %s", u.what, f.At(cr.loop1)))
+			}
+		}
+	}
 	if cr.loop1 == nil {
-		oM.Undecided("the e-mail comparison is not inside a loop over a slice")
+		oM.Undecided("no comparison of a credential field with a parameter inside a loop over a slice")
 	} else {
 		isKeep := func(call *ast.CallExpr) bool {
 			for _, k := range cr.keeps {
@@ -395,6 +417,9 @@ func c09CredCheck(c *kit.Ctx, a *c09Anchors, m *storeModel) {
 		var bad, murky []string
 		for _, val := range [][2]string{{"T", "T"}, {"T", "F"}, {"F", "T"}, {"F", "F"}} {
 			both := val[0] == "T" && val[1] == "T"
+			if (val[0] == "F" && exact["em"] != nil) || (val[1] == "F" && exact["pw"] != nil) {
+				continue // such a user is not among the candidates the query selects
+			}
 			fl := newC09Flow(f)
 			fl.inline = func(cf *kit.Func, call *ast.CallExpr) bool { return matchHelper(cf) }
 			dyn := func(e ast.Expr) types.Object { return fl.obj(e) }
@@ -483,19 +508,128 @@ func c09CredCheck(c *kit.Ctx, a *c09Anchors, m *storeModel) {
 				return true
 			})
 		}
+		// the parameter each credential is compared with: by the Go comparison, else
+		// by the statements (the parameter bound against the point of its type), else
+		// the remaining one of two string parameters
+		type side struct {
+			id, name, ptype string
+			field           *types.Var
+			goParam, param  types.Object
+			bad, murky      []string
+		}
+		sides := [2]*side{
+			{id: "em", name: "e-mail", ptype: emailT, field: emailF, goParam: emailParam},
+			{id: "pw", name: "password", ptype: passT, field: passF, goParam: passParam},
+		}
+		for _, sd := range sides {
+			sd.param = sd.goParam
+			for _, u := range uses {
+				if sd.param == nil && u.ptype == sd.ptype && u.kind != "interp" {
+					sd.param = u.param
+				}
+			}
+		}
+		if len(params) == 2 {
+			for i, sd := range sides {
+				if other := sides[1-i].param; sd.param == nil && other != nil {
+					for p := range params {
+						if p != other {
+							sd.param = p
+						}
+					}
+				}
+			}
+		}
+		var sqlBad []string
+		for _, sd := range sides {
+			for _, u := range uses {
+				if u.param != sd.param || sd.param == nil {
+					continue
+				}
+				rightType := u.ptype == sd.ptype
+				switch {
+				case sd.goParam != nil:
+					// a pre-selection next to the Go comparison must keep every exact match
+					if !(rightType && (u.kind == "eq" || (u.kind == "inexact" && u.op == "LIKE"))) {
+						sd.murky = append(sd.murky, fmt.Sprintf("%s: cannot show that this pre-selection keeps every user whose %s is equal", u.what, sd.name))
+					}
+				case u.kind == "eq" && rightType:
+				case u.kind == "eq":
+					sd.bad = append(sd.bad, fmt.Sprintf("%s compares the entered %s with the text of the point of type %q", u.what, sd.name, u.ptype))
+				case u.kind == "inexact":
+					as := "a bound"
+					switch {
+					case strings.Contains(u.op, "LIKE"):
+						as = "a pattern (in LIKE % and _ are wildcards and case is ignored)"
+					case strings.Contains(u.op, "GLOB") || strings.Contains(u.op, "REGEXP") || strings.Contains(u.op, "MATCH"):
+						as = "a pattern"
+					}
+					sd.bad = append(sd.bad, fmt.Sprintf("%s uses the entered %s as %s", u.what, sd.name, as))
+				case u.kind == "interp":
+					sd.bad = append(sd.bad, fmt.Sprintf("%s, where the entered %s can change the statement itself", u.what, sd.name))
+				default:
+					sd.murky = append(sd.murky, u.what)
+				}
+			}
+			if sd.goParam == nil && exact[sd.id] == nil {
+				// library predicates that test a part of the stored value; nothing else
+				// in the Go code may look at the stored credential
+				inexact, other := c09GoCredReads(f, sd.field, sd.ptype, uses)
+				for _, x := range inexact {
+					sd.bad = append(sd.bad, x+" tests a part or a pattern of the stored "+sd.name)
+				}
+				sd.bad = uniqStrings(sd.bad)
+				switch {
+				case len(sd.bad) == 0:
+				case other:
+					sd.murky = append(sd.murky, sd.bad...)
+					sd.bad = nil
+				default:
+					sqlBad = append(sqlBad, fmt.Sprintf("the %s is never compared for equality with the stored one (%s): a candidate is kept — and, with a live path to the root, a token is issued — without the entered %s being equal to the user's", sd.name, strings.Join(sd.bad, "; "), sd.name))
+				}
+			}
+		}
+		covered := func(sd *side, read bool) bool { return read || exact[sd.id] != nil }
+		var sideMurky []string
+		for _, sd := range sides {
+			sideMurky = append(sideMurky, sd.murky...)
+		}
 		switch {
-		case !readE || !readP:
-			oM.Violation("%s and the functions it calls never read the user's %s: that credential is not checked", f.Name, map[bool]string{true: passF.Name(), false: emailF.Name()}[readE])
-		case emailParam == nil || passParam == nil:
+		case len(sqlBad) > 0:
+			oM.Violation("%s", strings.Join(sqlBad, "; "))
+		case !covered(sides[0], readE) || !covered(sides[1], readP):
+			sd, fld := sides[0], emailF
+			if covered(sides[0], readE) {
+				sd, fld = sides[1], passF
+			}
+			// the parameter may be judged somewhere the checker does not look (a query
+			// in a helper, a library call): only an unused parameter is a verdict
+			if sd.param != nil && !c09ParamUsed(f, sd.param) {
+				oM.Violation("%s and the functions it calls never read the user's %s, and parameter %s is not used: that credential is not checked", f.Name, fld.Name(), sd.param.Name())
+			} else {
+				oM.Undecided("%s and the functions it calls never read the user's %s; the %s parameter is handed to code or a statement that was not judged%s", f.Name, fld.Name(), sd.name,
+					map[bool]string{true: " (" + strings.Join(sd.murky, "; ") + ")", false: ""}[len(sd.murky) > 0])
+			}
+		case len(noFeed) > 0 && (emailParam == nil || passParam == nil):
+			oM.Undecided("%s", strings.Join(noFeed, "; "))
+		case (emailParam == nil && exact["em"] == nil) || (passParam == nil && exact["pw"] == nil):
 			oM.Undecided("%s reads both credential fields, but a comparison with a string parameter was recognised for %s: %v, %s: %v", f.Name, emailF.Name(), emailParam != nil, passF.Name(), passParam != nil)
-		case emailParam == passParam:
-			oM.Violation("e-mail and password are compared with the same parameter %s", emailParam.Name())
+		case sides[0].param == sides[1].param:
+			oM.Violation("e-mail and password are compared with the same parameter %s", sides[0].param.Name())
 		case len(bad) > 0:
 			oM.Violation("%s", strings.Join(bad, "; "))
+		case len(sideMurky) > 0:
+			oM.Undecided("%s", strings.Join(uniqStrings(sideMurky), "; "))
 		case len(murky) > 0:
 			oM.Undecided("%s", strings.Join(murky, "; "))
 		default:
-			oM.OK("kept exactly under %s == %s ∧ %s == %s", emailF.Name(), emailParam.Name(), passF.Name(), passParam.Name())
+			how := func(sd *side) string {
+				if sd.goParam != nil {
+					return fmt.Sprintf("%s == %s", sd.field.Name(), sd.goParam.Name())
+				}
+				return exact[sd.id].what + " (candidate query)"
+			}
+			oM.OK("kept exactly under %s ∧ %s", how(sides[0]), how(sides[1]))
 		}
 	}
 
